@@ -9,7 +9,6 @@ import decoder_rules as DR
 from props.c06 import check_balance
 
 INSERTERS = dict(O.TAKES_REF)
-SUBJECTS = ["cbor_copy", "_cbor_copy_int", "_cbor_copy_float_ctrl"]
 
 
 def strip(t):
@@ -72,12 +71,15 @@ def run(ctx, chk):
     Tn = {v: k for k, v in T.items()}
     SRC = ("arg", 0)
     CS = typestate.CallSites(prog, eff, cache, H, PA)
+    # the copy routine and every unit-internal helper it is split into (whatever they are called)
+    SUBJECTS = ["cbor_copy"] + sorted(n for n in eff.transitive_callees("cbor_copy")
+                                      if n in prog.funcs and prog.funcs[n].internal and prog.funcs[n].unit == prog.fn("cbor_copy").unit)
     # ---- aliasing / freshness
     nins = 0
     for name in SUBJECTS:
         f = prog.fn(name)
         where = "%s:%d" % (f.file, f.line)
-        for k, pa in enumerate(cache.get(name)):
+        for k, pa in enumerate(cache.get(name, inline_static=True)):
             D, is_d = derived_set(prog, eff, pa, SRC)
             for e in pa.events:
                 if e.kind == "call" and e.ckind == "lib":
@@ -140,7 +142,7 @@ def run(ctx, chk):
         T["CBOR_TYPE_MAP"]: dict(pred="cbor_map_is_definite", new_def="cbor_new_definite_map", count="cbor_map_size",
                                  new_indef="cbor_new_indefinite_map", ins="cbor_map_add"),
     }
-    for k, pa in enumerate(cache.get("cbor_copy")):
+    for k, pa in enumerate(cache.get("cbor_copy", inline_static=True)):
         tys_, _iw, _fw, fl_ = CS.summary(f, pa, SRC)
         ty = sorted(tys_)
         if len(ty) != 1:
